@@ -89,6 +89,33 @@ def gen_exact(rng, zero_ok):
     return ''.join(rng.choice(al) for _ in range(k))
 
 
+FOLD_MAP = {'a': u's', 'b': u'k', 'c': u'\u03c3'}                                   # a b c -> s k sigma
+FOLD_VARIANTS = {u's': u'sS\u017f', u'k': u'kK\u212a', u'\u03c3': u'\u03c3\u03a3\u03c2'}     # long s, Kelvin sign, final sigma
+
+
+def recase_text(rng, text, fold):
+    """ignorecase runs: the stream carries case variants of what the patterns spell in lower case; in the 'special'
+    flavour (unicode mode) the letters are those whose case folding is wider than str.lower()/str.upper()."""
+    out = []
+    for ch in text:
+        if ch in 'abc':
+            if fold == 'special':
+                out.append(rng.choice(FOLD_VARIANTS[FOLD_MAP[ch]]))
+            else:
+                out.append(ch.upper() if rng.random() < 0.4 else ch)
+        else:
+            out.append(ch)
+    return u''.join(out) if fold == 'special' else ''.join(out)
+
+
+def recase_pattern(rng, p, fold):
+    if fold != 'special':
+        return p
+    q = p.replace('\\b', '\x00')          # keep the word-boundary escape intact
+    q = u''.join(FOLD_MAP.get(ch, ch) for ch in q)
+    return q.replace('\x00', '\\b')
+
+
 def gen_pats(rng, exact, zero_ok, markers, nomatch=False):
     n = rng.choice([1, 1, 2, 2, 3, 4, 6])
     if nomatch:
@@ -159,7 +186,11 @@ def gen_dt(rng):
 
 
 def gen_eintr(rng, scn, p=0.15, delays=(1, 5, 50, 500, 5000), nmax=25):
-    """Signals handled by the parent while it waits (EINTR reaching pexpect.utils): must be transparent."""
+    """Signals handled by the parent while it waits (EINTR reaching pexpect.utils): must be transparent.
+    Also: an application that holds more than 1024 descriptors and therefore uses use_poll=True (select() raises beyond
+    FD_SETSIZE): every wait of the transport must really go through poll."""
+    if scn.get('use_poll') and scn.get('transport') in ('pty', 'fd') and rng.random() < 0.3:
+        scn['many_fds'] = True
     if scn.get('transport') == 'popen' or rng.random() >= p:
         return
     scn['eintr'] = sorted([rng.randint(1, nmax), rng.choice(delays)] for _ in range(rng.randint(1, 5)))
@@ -196,7 +227,7 @@ def generate(rng, profile='engine'):
     elif rng.random() < 0.2:
         scn['delayafterread'] = rng.choice([None, 0.001])
     zero_ok = rng.random() < 0.25
-    if rng.random() < 0.1:
+    if rng.random() < 0.15:
         scn['ignorecase'] = True
     n = rng.choice([0, 1, 3, 6, 10, 20, 30, 60]) if rng.random() < 0.9 else rng.randint(60, 400)
     if os.environ.get('SIMPEX_TIER') == 'thorough' and rng.random() < 0.3:
@@ -208,6 +239,11 @@ def generate(rng, profile='engine'):
         if scn.get('cap', 65536) < 200:
             scn.pop('cap', None)
     text = gen_text(rng, n, uni)
+    fold = None
+    if scn.get('ignorecase'):
+        fold = 'special' if (uni and rng.random() < 0.5) else 'ascii'
+        scn['fold'] = fold
+        text = recase_text(rng, text, fold)
     data = text.encode('utf-8') if uni else text.encode('latin-1')
     pieces = cut(rng, data, rng.choice([1, 2, 4, 8, 16]))
     if uni:
@@ -285,9 +321,21 @@ def generate(rng, profile='engine'):
             op['sws'] = None
         else:
             op['sws'] = rng.choice([1, 2, 3, 4, 5, 8, 1000])
+        if fold == 'special':
+            if not exact and rng.random() < 0.6:
+                # plain words handed to expect() as strings: pexpect compiles them with IGNORECASE itself
+                op['api'] = api = 'expect'
+                for pp in op['pats']:
+                    if pp.get('t') == 're' and rng.random() < 0.7:
+                        pp['p'] = ''.join(rng.choice('abc') for _ in range(rng.choice([1, 2, 2, 3])))
+                op['force_raw'] = True
+            for pp in op['pats']:
+                if 'p' in pp:
+                    pp['p'] = recase_pattern(rng, pp['p'], fold)
         if api == 'expect' and len(op['pats']) == 1 and rng.random() < 0.5:
             op['single'] = True
-        if api == 'expect' and rng.random() < 0.5:
+        force_raw = op.pop('force_raw', False)
+        if api == 'expect' and (rng.random() < 0.5 or force_raw):
             op['raw'] = True
             if rng.random() < 0.4:
                 op['same_list'] = True
@@ -466,6 +514,17 @@ def evaluate(r, clauses=None):
                 if V('C02.pattern_list', 'the call searched for %r, it was asked to search for %r' % (used, asked), call):
                     return out
                 return out
+            # strings handed to expect() are compiled by pexpect itself: DOTALL always, IGNORECASE iff the instance says so;
+            # compiled patterns (and expect_list) keep the caller's flags
+            opd = r.scn['ops'][opk]
+            want_flags = re.DOTALL | (re.IGNORECASE if (opk in r.raw_calls and r.scn.get('ignorecase')) else 0)
+            mask = re.DOTALL | re.IGNORECASE      # the two flags compile_pattern_list documents
+            for q in plist:
+                if hasattr(q, 'flags') and (q.flags & mask) != want_flags:
+                    if V('C02.pattern_list', 'pattern %r was searched with flags %s, the call asks for %s'
+                         % (q.pattern, re.RegexFlag(q.flags & mask), re.RegexFlag(want_flags)), call):
+                        return out
+                    return out
         W = call['sws']
         if W == -1:
             W = call['inst_sws']
@@ -537,6 +596,11 @@ def evaluate(r, clauses=None):
             if call['before'] != E:
                 if V('C01.conservation', 'after %s, before != all pending text' % name, call,
                      expected=E, got=call['before']):
+                    return out
+                # the same fact is part of C04's statement (listed: index with before = all pending text; not listed:
+                # raises with the same bookkeeping)
+                if V('C04.bookkeeping', '%s outcome (%s), but before is not all the pending text'
+                     % (name, 'index returned' if kind == 'ret' else 'raised'), call, expected=E, got=call['before']):
                     return out
                 return out
             cls = TIMEOUT if is_to else EOF
